@@ -167,6 +167,8 @@ def build_driver():
                 shutil.copyfile(s, t)
                 stale = True
         if stale:
+            if os.path.exists(os.path.join(d, "driver")):
+                os.remove(os.path.join(d, "driver"))      # a failed build must not leave an old binary that looks up to date
             rc, out = sh(["ocamlfind", "ocamlopt", "-O2", "-w", "-a", "-package", "str", "-linkpkg"] + srcs + ["-o", "driver"], cwd=d, timeout=600)
             if rc != 0:
                 return False, out
